@@ -99,10 +99,9 @@ def lower_time() -> str:
 
 
 def new_id() -> str:
-    d = 8
-    t = time.monotonic_ns()
-    _mm, mn = divmod(t, 10**d)
-    return i2greek(mn, width=d)
+    # NOTE: the whole clock value: its remainder modulo 10**8 came around
+    #   every 100 ms, and two packets sent some periods apart got one id
+    return i2greek(time.monotonic_ns(), width=8)
 
 
 def hash2byte(data: Any) -> bytes:
